@@ -93,11 +93,12 @@ inline ApiCase gen_normalize(const MODULE* mod, NormShape s, const char* cfg) {
 // DFT family.  Integer test polynomials: |x| <= 2^20 for FFT64 (exactness regime), 62-bit for NTT120.
 inline int64_t dft_in_value(MODULE_TYPE t, uint64_t e) { return t == FFT64 ? small_val(e, 1 << 20) : probe62(e); }
 
-struct DftShape { uint64_t N = 4, rs = 1, as = 1, asl = 4; int variant = 0; /* 0 dft, 1 idft, 2 idft_tmp_a */ int alias = 0; };
+struct DftShape { uint64_t N = 4, rs = 1, as = 1, asl = 4; int variant = 0; /* 0 dft, 1 idft, 2 idft_tmp_a */ int alias = 0;
+                  int big = 0; /* inverse transforms, FFT64: coefficients of magnitude 2^50 (top of the big-coefficient range; not judged exactly) */ };
 inline std::string dft_id(const DftShape& s, MODULE_TYPE t, const char* cfg) {
   static const char* vn[] = {"vec_znx_dft", "vec_znx_idft", "vec_znx_idft_tmp_a"};
-  return sfmt("%s|%s|%s|N=%llu|rs=%llu|as=%llu,asl=%llu|alias=%d", vn[s.variant], mtname(t), cfg, (unsigned long long)s.N,
-              (unsigned long long)s.rs, (unsigned long long)s.as, (unsigned long long)s.asl, s.alias);
+  return sfmt("%s|%s|%s|N=%llu|rs=%llu|as=%llu,asl=%llu|alias=%d%s", vn[s.variant], mtname(t), cfg, (unsigned long long)s.N,
+              (unsigned long long)s.rs, (unsigned long long)s.as, (unsigned long long)s.asl, s.alias, s.big ? "|magnitude 2^50" : "");
 }
 inline ApiCase gen_dft(const MODULE* mod, MODULE_TYPE t, DftShape s, const char* cfg) {
   const uint64_t N = s.N;
@@ -139,8 +140,10 @@ inline ApiCase gen_dft(const MODULE* mod, MODULE_TYPE t, DftShape s, const char*
   int it = -1;
   if (s.variant == 1) it = c.add("tmp", R_SCRATCH, vec_znx_idft_tmp_bytes(mod));
   std::vector<int64_t> pol(N * std::max<uint64_t>(s.as, 1));
-  for (size_t e = 0; e < N * s.as; ++e) pol[e] = dft_in_value(t, e + 17);
+  const bool bigv = s.big && t == FFT64;
+  for (size_t e = 0; e < N * s.as; ++e) pol[e] = bigv ? dft_in_value(t, e + 17) * (INT64_C(1) << 29) : dft_in_value(t, e + 17);
   if (s.as) vec_znx_dft(mod, (VEC_ZNX_DFT*)c.bufs[ia].init.data(), s.as, pol.data(), s.as, N);
+  if (bigv) { double* d = (double*)c.bufs[ia].init.data(); for (size_t e = 0; e < N * s.as; ++e) d[e] *= 3.0; }  // coefficients up to 1.5 * 2^50: many of them in [2^50, 2^51), above the narrow conversion kernel's range
   if (s.variant == 2) { Buf& A = c.bufs[ia]; memset(A.mask.data(), 2, A.bytes); /* documented: a_dft is overwritten */
     size_t lb = dft_bytes(t, N, 1); for (uint64_t i = smin; i < s.as; ++i) memset(&A.mask[i * lb], 2, lb); }
   if (s.alias) c.bufs[ia].alias_of = ir;
@@ -150,7 +153,7 @@ inline ApiCase gen_dft(const MODULE* mod, MODULE_TYPE t, DftShape s, const char*
     for (uint64_t j = 0; j < N; ++j) {
       i128 v = i < smin ? (i128)pol[i * N + j] : 0;
       memcpy(&R.exp[(i * N + j) * eb], &v, eb);
-      memset(&R.mask[(i * N + j) * eb], 1, eb);
+      memset(&R.mask[(i * N + j) * eb], (bigv && i < smin) ? 2 : 1, eb);  // large magnitudes are beyond the exactness regime: written, not judged exactly
     }
   c.nontrivial = smin > 0;
   c.call = [mod, s, ir, ia, it](uint8_t** p) {
